@@ -305,7 +305,7 @@ class Machine:
                 after = now[0] if m["k"] != "s" else now
                 raise Fail(f"operand #{i} ({role}, {m['k']}) was mutated by step {op}(#{ia},#{ib}): {what} before "
                            f"{show(before) if isinstance(before, dict) else before}, after {show(after) if isinstance(after, dict) else after}",
-                           sig=f"mutated:{self.fam}:{m['k']}:{INPLACE.get(op, op)}:{role}", step=list(step))
+                           sig=f"mutated:{self.fam}:{m['k']}:{INPLACE.get(op, op)}", step=list(step))
 
     def check_value(self, step, obj, exp_terms, want_attrs, what):
         op, ia, ib = step
@@ -354,9 +354,14 @@ class Machine:
         if op == "clone":
             if A["k"] == "s":
                 return None
-            kinds = (["tf", "of"] if fam == "F" else ["tq", "oq", "th"])
+            # same terms, class b%k; every other clone of an annotated class gets different annotations
+            kinds = (["tf", "of", "tf*"] if fam == "F" else ["tq", "oq", "th", "th*"])
             kind = kinds[b % len(kinds)]
-            attrs = A.get("attrs") if kind == A["k"] else (list(F_ATTRS[0]) if kind == "tf" else None)
+            if kind.endswith("*"):
+                kind = kind[:-1]
+                attrs = list(F_ATTRS[(b // 3) % len(F_ATTRS)]) if fam == "F" else Q_ANN[(b // 4) % len(Q_ANN)]
+            else:
+                attrs = A.get("attrs") if kind == A["k"] else (list(F_ATTRS[0]) if kind == "tf" else None)
             terms = dict(A["terms"])
             self.push({"k": kind, "attrs": attrs, "terms": terms}, make_operator(fam, kind, terms, attrs))
             return "clone"
@@ -373,7 +378,13 @@ class Machine:
             self.mark(ia)
             return "neg:" + A["k"]
         if op == "div":
-            if A["k"] == "s" or B["k"] != "s" or B["val"] == 0:
+            if B["k"] != "s":     # take the b-th scalar of the pool instead
+                sc = [i for i, m in enumerate(self.model) if m["k"] == "s"]
+                if not sc:
+                    return None
+                ib = sc[b % len(sc)]
+                B, rb = self.model[ib], self.real[ib]
+            if A["k"] == "s" or B["val"] == 0:
                 return None
             step = (op, ia, ib)
             want = A.get("attrs") if A["k"] in ("tf", "th") else None
@@ -406,8 +417,11 @@ class Machine:
             return None
         if inplace and A["k"] == "s":
             return None
-        if inplace and ia == ib and base == "sub" and A["k"] != "tf":
-            return None     # openfermion's own `a -= a` deletes from the dictionary it iterates over; not Tangelo code
+        if inplace and ia == ib and (base == "add" or (base == "sub" and A["k"] != "tf")):
+            # openfermion's own `a += a` / `a -= a` delete small coefficients from the dictionary they iterate over
+            # (RuntimeError "dictionary changed size"); that is not Tangelo code.  Tangelo's FermionOperator `a -= a`
+            # is a += (-1.*a) on a fresh object and is kept.
+            return None
         # model value
         if A["k"] == "s" or B["k"] == "s":
             s, M, s_left = (A, B, True) if A["k"] == "s" else (B, A, False)
@@ -472,8 +486,9 @@ class Machine:
             kb = self.model[ib]["k"] if ib is not None else "-"
             if mode[0] in ("raise", "either") and isinstance(e, mode[1]):
                 return REFUSED
+            cls = {"tq": "plain", "oq": "plain", "s": "scalar"}
             raise Fail(f"{op}({self.desc(ia)}, {self.desc(ib) if ib is not None else ''}) raised {type(e).__name__}: {e}",
-                       sig=f"exception:{self.fam}:{ka}:{op}:{kb}:{type(e).__name__}", step=list(step))
+                       sig=f"exception:{self.fam}:{cls.get(ka, ka)}:{INPLACE.get(op, op)}:{cls.get(kb, kb)}:{type(e).__name__}", step=list(step))
 
 
 REFUSED = object()
@@ -595,12 +610,12 @@ def matrix_cases():
     """Every (left class, operation, right class) combination on fixed small operands, incl. aliased operands."""
     f_ops = [{"k": "tf", "attrs": F_ATTRS[0], "terms": [[[[0, 1], [1, 0]], 2.0, 0.0], [[], 0.5, 0.0]]},
              {"k": "tf", "attrs": F_ATTRS[1], "terms": [[[[1, 1], [0, 0]], 3.0, 0.0]]},
-             {"k": "tf", "attrs": F_ATTRS[2], "terms": [[[[1, 1], [0, 0]], -1.0, 0.5]]},
+             {"k": "tf", "attrs": F_ATTRS[2], "terms": [[[[1, 1], [0, 0]], 3.0, 0.0]]},
              {"k": "of", "attrs": None, "terms": [[[[2, 1], [0, 0]], 5.0, 0.0], [[[0, 1], [1, 0]], -2.0, 0.0]]}]
     q_ops = [{"k": "tq", "attrs": None, "terms": [[[[0, "X"]], 2.0, 0.0], [[], 0.5, 0.0]]},
              {"k": "th", "attrs": Q_ANN[1], "terms": [[[[0, "Y"], [2, "Z"]], 3.0, 0.0]]},
-             {"k": "th", "attrs": Q_ANN[2], "terms": [[[[0, "Y"]], 1.0, 1.0]]},
-             {"k": "th", "attrs": Q_ANN[3], "terms": [[[[1, "Z"]], -1.0, 0.0]]},
+             {"k": "th", "attrs": Q_ANN[2], "terms": [[[[0, "Y"], [2, "Z"]], 3.0, 0.0]]},
+             {"k": "th", "attrs": Q_ANN[3], "terms": [[[[0, "Y"], [2, "Z"]], 3.0, 0.0]]},
              {"k": "th", "attrs": Q_ANN[4], "terms": [[[[0, "Z"]], 0.25, 0.0]]},
              {"k": "th", "attrs": None, "terms": [[[[0, "Z"]], 3.0, 0.0]]},
              {"k": "oq", "attrs": None, "terms": [[[[0, "X"], [1, "Z"]], 7.0, 0.0], [[[0, "X"]], -2.0, 0.0]]}]
@@ -615,13 +630,16 @@ def matrix_cases():
                 if pool[i]["k"] == "s" and pool[j]["k"] == "s":
                     continue
                 for op in ["add", "sub", "mul", "div", "eq", "iadd", "isub", "imul"]:
-                    out.append({"fam": fam, "pool": pool, "ops": [{"op": op, "a": i, "b": j}]})
+                    if i == j:      # the same object on both sides
+                        out.append({"fam": fam, "pool": [pool[i]], "ops": [{"op": op, "a": 0, "b": 0}]})
+                    else:
+                        out.append({"fam": fam, "pool": [pool[i], pool[j]], "ops": [{"op": op, "a": 0, "b": 1}]})
             if pool[i]["k"] != "s":
-                out.append({"fam": fam, "pool": pool, "ops": [{"op": "neg", "a": i, "b": 0}]})
+                out.append({"fam": fam, "pool": [pool[i]], "ops": [{"op": "neg", "a": 0, "b": 0}]})
     return out
 
 
-@part("matrix", quick=1, thorough=1)
+@part("matrix", quick=1, thorough=1, shard=False)
 def matrix(ctx):
     def body(case):
         m = run_history(case)
@@ -711,7 +729,7 @@ def multiform(ctx):
         q.terms = word_terms(op)
         return MultiformOperator.from_qubitop(q, n), q
 
-    def body(case):
+    def body_mul(case):
         n = case["n"]
         ta, tb = word_terms(case["A"]), word_terms(case["B"])
         A, qa = build(case["A"], n)
@@ -720,7 +738,6 @@ def multiform(ctx):
         snapA = (dict(A.terms), A.integer.copy(), A.binary.copy(), np.array(A.factors).copy())
         snapB = (dict(B.terms), B.integer.copy(), B.binary.copy(), np.array(B.factors).copy())
         labels = set()
-        # ---- product
         exp = RO.qop_mul(ta, tb)
         P = A * B
         ok, k = terms_close(dict(P.terms), exp, tol=1e-9 * scale_of(exp))
@@ -744,7 +761,15 @@ def multiform(ctx):
         for name, obj, sn in (("left", A, snapA), ("right", B, snapB)):
             if dict(obj.terms) != sn[0] or not np.array_equal(obj.integer, sn[1]) or not np.array_equal(obj.binary, sn[2]) or not np.array_equal(obj.factors, sn[3]):
                 raise Fail(f"MultiformOperator product mutated its {name} operand", sig=f"multiform:mul:mutated-{name}")
-        # ---- commutation
+        return len(ta) >= 2 and len(tb) >= 2, labels
+
+    def body_commute(case):
+        n = case["n"]
+        ta, tb = word_terms(case["A"]), word_terms(case["B"])
+        A, _ = build(case["A"], n)
+        B, _ = build(case["B"], n)
+        labels = set()
+        exp = RO.qop_mul(ta, tb)
         pair = [[RO.words_commute(t1, t2) for t2 in tb] for t1 in ta]
         exp_res = [all(r) for r in pair]
         got_res = do_commute(A, B, term_resolved=True)
@@ -768,7 +793,8 @@ def multiform(ctx):
             labels.add("commutator-cancels-unjudged")
         return len(ta) >= 2 and len(tb) >= 2, labels
 
-    ctx.search("multiform", multiform_pairs(max_n), body)
+    ctx.search("mul", multiform_pairs(max_n), body_mul, frac=0.5)
+    ctx.search("do_commute", multiform_pairs(max_n), body_commute, frac=0.5)
 
 
 @part("collapse", quick=600, thorough=20000)
